@@ -481,10 +481,20 @@ func abortClose(c *rawclient.Conn) {
 
 // ---------------------------------------------------------------- check
 
-const (
-	findingBelief = "C20-F1"
-	findingAlias  = "C20-F2"
-)
+// infraMarks are texts of errors that come from the fixture's infrastructure (pool, sockets,
+// deadlines on a loaded machine), not from the behaviour under test: such a case is skipped.
+var infraMarks = []string{"getbackendconn failed", "create resource failed", "context deadline exceeded", "i/o timeout",
+	"connection refused", "connection reset", "broken pipe", "bad connection", "timed out", "timeout", "unexpected eof", "use of closed network connection"}
+
+func infraErr(msg string) bool {
+	m := strings.ToLower(msg)
+	for _, k := range infraMarks {
+		if strings.Contains(m, k) {
+			return true
+		}
+	}
+	return false
+}
 
 func checkCase(c histCase) (o pbt.Outcome) {
 	if c.Clients < 1 || c.Clients > 8 || len(c.Handshake) < c.Clients || len(c.TxAlias) < c.Clients || c.Capacity < 1 {
@@ -566,7 +576,6 @@ func checkCase(c histCase) (o pbt.Outcome) {
 
 	conns := make([]*rawclient.Conn, c.Clients)
 	model := make([]settings, c.Clients)
-	dead := make([]bool, c.Clients)
 	inTx := make([]bool, c.Clients)
 	holds := make([]bool, c.Clients)
 	for i := 0; i < c.Clients; i++ {
@@ -615,9 +624,6 @@ func checkCase(c histCase) (o pbt.Outcome) {
 
 	for i, op := range c.Ops {
 		ci := op.C % c.Clients
-		if dead[ci] {
-			continue
-		}
 		cc := conns[ci]
 		switch op.K {
 		case "set":
@@ -627,11 +633,14 @@ func checkCase(c histCase) (o pbt.Outcome) {
 			sql := renderSet(op, c.TxAlias[ci])
 			r, err := cc.Exec(sql)
 			if err != nil {
-				dead[ci] = true
-				labels["client_connection_lost"] = true
-				continue
+				o.Skip = "client transport error (infrastructure)"
+				return
 			}
 			taintFrom(ci)
+			if r.Err != nil && infraErr(r.Err.Message) {
+				o.Skip = "infrastructure error reported by the proxy"
+				return
+			}
 			if r.Err != nil {
 				if len(op.Sets) > 1 {
 					o.Skip = "a multi-assignment SET was refused by the proxy (client model ambiguous)"
@@ -666,11 +675,14 @@ func checkCase(c histCase) (o pbt.Outcome) {
 			sql, cs, co, valid := renderNames(op)
 			r, err := cc.Exec(sql)
 			if err != nil {
-				dead[ci] = true
-				labels["client_connection_lost"] = true
-				continue
+				o.Skip = "client transport error (infrastructure)"
+				return
 			}
 			taintFrom(ci)
+			if r.Err != nil && infraErr(r.Err.Message) {
+				o.Skip = "infrastructure error reported by the proxy"
+				return
+			}
 			if r.Err != nil {
 				if valid {
 					if os.Getenv("C20_DEBUG") != "" {
@@ -695,11 +707,14 @@ func checkCase(c histCase) (o pbt.Outcome) {
 			}
 			r, err := cc.Exec(op.K)
 			if err != nil {
-				dead[ci] = true
-				labels["client_connection_lost"] = true
-				continue
+				o.Skip = "client transport error (infrastructure)"
+				return
 			}
 			taintFrom(ci)
+			if r.Err != nil && infraErr(r.Err.Message) {
+				o.Skip = "infrastructure error reported by the proxy"
+				return
+			}
 			if r.Err == nil {
 				if op.K == "begin" {
 					inTx[ci] = true
@@ -748,12 +763,15 @@ func checkCase(c histCase) (o pbt.Outcome) {
 				r, err = cc.Exec("select id from t where tag = '" + tag + "'")
 			}
 			if err != nil {
-				dead[ci] = true
-				labels["client_connection_lost"] = true
-				continue
+				o.Skip = "client transport error (infrastructure)"
+				return
 			}
 			if inTx[ci] {
 				holds[ci] = true
+			}
+			if r.Err != nil && infraErr(r.Err.Message) {
+				o.Skip = "infrastructure error reported by the proxy"
+				return
 			}
 			if taintFrom(ci) {
 				labels["backend_rejected_set"] = true
@@ -807,74 +825,25 @@ func checkCase(c histCase) (o pbt.Outcome) {
 		sort.Strings(who)
 		return "requested by " + who[0]
 	}
-	// classifier for the confirmed defect: the most recent SET on that backend connection that
-	// assigned the item was REFUSED by the backend and carried exactly the value the client wants
-	// (the proxy recorded it as applied before executing it and never sent it again)
-	//
-	// (after a rejection on the client's own behalf the proxy may have dropped the variable from the
-	// session, so "= DEFAULT" in the refused statement counts as what the client wants as well).
-	// Second confirmed defect (C20-F2): tx_read_only and transaction_read_only are kept as two
-	// variables by the proxy although they name one variable of the backend; the most recent SET
-	// on the connection succeeded and assigned that variable TWICE (the value for one spelling,
-	// then "= DEFAULT" for the other client's spelling, which wins; on an 8.0 backend both are
-	// written as transaction_read_only)
-	classify := func(e fakemysql.Event, name string, want string, wantSet bool, tainted bool) (string, string) {
+	// lastSet describes, for the violation detail only, the most recent SET on that backend
+	// connection that assigned the item
+	lastSet := func(e fakemysql.Event, name string) string {
 		for i := len(events) - 1; i >= 0; i-- {
 			s := events[i]
 			if s.ConnID != e.ConnID || s.Seq >= e.Seq || s.Kind != "query" || !isSessionSet(s.SQL) {
 				continue
 			}
-			refused := strings.HasPrefix(s.Outcome, "err")
 			as, _ := fakemysql.ParseSet(fakemysql.StripLeadingComments(s.SQL))
-			times := 0
-			for _, b := range as {
-				if !b.Names && canonName(b.Name) == name {
-					times++
+			for _, a := range as {
+				if (name == namesKey && a.Names) || (name != namesKey && !a.Names && canonName(a.Name) == name) {
+					return s.SQL + " -> " + s.Outcome
 				}
-			}
-			for j := len(as) - 1; j >= 0; j-- {
-				a := as[j]
-				if name == namesKey {
-					if !a.Names {
-						continue
-					}
-					got := strings.ToLower(a.Value) + "/" + strings.ToLower(a.Collation)
-					// what the refused statement asked for is a state this client may run with
-					if refused && (got == want || (tainted && got == serverCharset+"/"+serverCollation)) {
-						return findingBelief, s.SQL + " -> " + s.Outcome
-					}
-					return "", s.SQL + " -> " + s.Outcome
-				}
-				if a.Names || canonName(a.Name) != name {
-					continue
-				}
-				// (a refused statement may carry the item twice, once per spelling of tx_read_only:
-				// the proxy records each spelling separately, so either one counts)
-				fits := false
-				for _, b := range as {
-					if !b.Names && canonName(b.Name) == name {
-						fits = fits || (b.Default && (!wantSet || tainted)) || (!b.Default && wantSet && canonValue(name, b.Value) == want)
-					}
-				}
-				if refused && fits {
-					return findingBelief, s.SQL + " -> " + s.Outcome
-				}
-				if name == "tx_read_only" && !refused && times > 1 {
-					return findingAlias, s.SQL + " -> " + s.Outcome
-				}
-				return "", s.SQL + " -> " + s.Outcome
 			}
 		}
-		return "", "no earlier SET of it on that connection"
+		return "no earlier SET of it on that connection"
 	}
 
-	type mismatch struct {
-		detail    string
-		known     string
-		fromOther bool // the wrong value is one another client asked for
-		victimOwn bool // the backend refused a SET with this item on this client's own behalf before
-	}
-	var mms []mismatch
+	var mms []string
 	type use struct {
 		client int
 		snap   settings
@@ -943,11 +912,11 @@ func checkCase(c histCase) (o pbt.Outcome) {
 		// character set and collation
 		wantCS := r.Snap.Charset + "/" + r.Snap.Collation
 		gotCS := strings.ToLower(e.Charset) + "/" + strings.ToLower(e.Collation)
-		if gotCS != wantCS && !(r.Snap.Taint[namesKey] && gotCS == serverCharset+"/"+serverCollation) {
-			known, last := classify(e, namesKey, wantCS, true, r.Snap.Taint[namesKey])
-			mms = append(mms, mismatch{fmt.Sprintf("%s of client %d ran on backend connection %d with character set/collation %s, the client's own setting is %s (%s; last SET NAMES on that connection: %s)",
-				r.Tag, r.Client, e.ConnID, gotCS, wantCS, origin(namesKey, gotCS, r.Client), last), known,
-				strings.HasPrefix(origin(namesKey, gotCS, r.Client), "requested"), r.Snap.Taint[namesKey]})
+		// (no tolerance here: the proxy never drops a client's character set, so after a refused
+		// SET NAMES the client's statements either fail or run with exactly what it asked for)
+		if gotCS != wantCS {
+			mms = append(mms, fmt.Sprintf("%s of client %d ran on backend connection %d with character set/collation %s, the client's own setting is %s (%s; last SET NAMES on that connection: %s)",
+				r.Tag, r.Client, e.ConnID, gotCS, wantCS, origin(namesKey, gotCS, r.Client), lastSet(e, namesKey)))
 		}
 		// variables
 		actual := map[string]string{}
@@ -977,16 +946,14 @@ func checkCase(c histCase) (o pbt.Outcome) {
 				labels["tolerated_default_after_rejection"] = true
 				continue // dropped after a rejection on this client's behalf: tolerated
 			}
-			known, last := classify(e, k, w, wok, r.Snap.Taint[k])
 			show := func(v string, ok bool) string {
 				if !ok {
 					return "<server default>"
 				}
 				return fmt.Sprintf("%q", v)
 			}
-			mms = append(mms, mismatch{fmt.Sprintf("%s of client %d ran on backend connection %d with %s = %s, the client's own setting is %s (%s; last SET of it on that connection: %s)",
-				r.Tag, r.Client, e.ConnID, k, show(a, aok), show(w, wok), origin(k, a, r.Client), last), known,
-				aok && strings.HasPrefix(origin(k, a, r.Client), "requested"), r.Snap.Taint[k]})
+			mms = append(mms, fmt.Sprintf("%s of client %d ran on backend connection %d with %s = %s, the client's own setting is %s (%s; last SET of it on that connection: %s)",
+				r.Tag, r.Client, e.ConnID, k, show(a, aok), show(w, wok), origin(k, a, r.Client), lastSet(e, k)))
 		}
 	}
 	if evaluated == 0 {
@@ -996,40 +963,14 @@ func checkCase(c histCase) (o pbt.Outcome) {
 		o.Labels = append(o.Labels, l)
 	}
 	sort.Strings(o.Labels)
-	for _, m := range mms {
-		if m.known == "" {
-			o.Violation = m.detail
-			return
-		}
-		l := "known_" + m.known
-		if m.known == findingBelief {
-			if m.fromOther {
-				l += "_runs_with_other_clients_value"
-			} else {
-				l += "_runs_with_stale_or_default_value"
-			}
-			if m.victimOwn {
-				l += "_after_own_refused_set"
-			} else {
-				l += "_victim_had_no_refusal"
-			}
-		}
-		if !labels[l] {
-			labels[l] = true
-			o.Labels = append(o.Labels, l)
-		}
-	}
-	sort.Strings(o.Labels)
 	if len(mms) > 0 {
-		// one finding id per case: the first mismatch in statement order names it
-		o.Known = mms[0].known
-		o.KnownWhat = mms[0].detail
+		o.Violation = mms[0] // the first mismatch in statement order
 	}
 	return
 }
 
 func TestC20SessionSettings(t *testing.T) {
-	pbt.Run(t, pbt.Spec{ID: "C20", Sub: "history", Quick: 400, Thorough: 3000,
+	pbt.Run(t, pbt.Spec{ID: "C20", Sub: "history", Quick: 160, Thorough: 3000,
 		Rule:  "2-4 clients (own handshake collation, own spelling of tx_read_only/transaction_read_only), master pool capacity 1-2, backend 5.7 or 8.0, 0-3 (variable,value)/charset pairs the backend refuses, 6-40 statements: SET of every accepted session variable in six syntactic forms (1-3 assignments, half of the cases concentrated on 1-4 variables), SET NAMES [COLLATE], user variables, = DEFAULT / = NULL, literals the proxy must refuse, begin/commit/rollback, tagged queries (text, prepared, update); non-trivial = two clients with different settings follow each other on one backend connection, or a connection is used again after the backend refused a SET on it, and at least one successful statement was compared",
 		Floor: 0.4}, genCase, checkCase)
 }
